@@ -158,6 +158,20 @@ class ClientWorld(object):
             from ref import simgroup
             {"phantom_joins": simgroup.phantom_joins, "phantom_leaves": simgroup.phantom_leaves,
              "evict": simgroup.evict_real}[kind](cl, ev[1])
+        elif kind == "kill":
+            # broker ev[1] dies (connections reset, port closed); its partitions and groups move to broker ev[2]
+            dead, heir = ev[1], ev[2]
+            cl.brokers[dead]["up"] = False
+            for tp, ld in list(cl.leader.items()):
+                if ld == dead:
+                    cl.leader[tp] = heir
+            cl.default_coordinator = heir if cl.default_coordinator == dead else cl.default_coordinator
+            for g, b_ in list(cl.coordinator.items()):
+                if b_ == dead:
+                    cl.coordinator[g] = heir
+            for c in list(self.net.open_conns()):
+                if c.server is not None and c.server.broker_id == dead:
+                    c.close(error.ConnectionLost("broker %d died" % dead))
         elif kind == "add_partition":
             cl.add_partition(ev[1], ev[2], ev[3])
         elif kind == "append":
@@ -234,6 +248,9 @@ class ClientWorld(object):
                         if len(tps) > 1:
                             for t, p in tps:
                                 ev.append(("reply:%d:err=%d@%s/%d" % (c.cid, e, t, p), F))
+                if api == rk.FETCH:
+                    for k in menu.get("corrupt", []):
+                        ev.append(("reply:%d:corrupt=%d" % (c.cid, k), F))  # bit error in the k-th message
                 if menu.get("silent"):
                     ev.append(("silent:%d" % c.cid, F))
             first_reply = False
@@ -365,8 +382,10 @@ class ClientWorld(object):
                 c.close(error.ConnectionLost("dropped by virtual network"))
             elif kind == "reply":
                 c = self.conn(int(parts[1]))
-                err, only = None, None
-                if len(parts) > 2:
+                err, only, corrupt = None, None, None
+                if len(parts) > 2 and parts[2].startswith("corrupt="):
+                    corrupt = int(parts[2][8:])
+                elif len(parts) > 2:
                     spec = parts[2][4:]
                     if "@" in spec:
                         e, tp = spec.split("@")
@@ -374,7 +393,7 @@ class ClientWorld(object):
                         err, only = int(e), (t, int(p))
                     else:
                         err = int(spec)
-                self.cluster.reply(c, err, only)
+                self.cluster.reply(c, err, only, corrupt=corrupt)
                 if c.b2c:
                     c.deliver()
             elif kind == "silent":
